@@ -28,6 +28,9 @@ class Num (α : Type) where
   erfc : α → α
   eqb : α → α → Bool
   inf : α
+  /-- C's `x < eslINFINITY` (the translator emits this for a comparison against the infinity macro):
+      `x < inf` on binary64, `true` on ℝ, where `inf` itself is opaque -/
+  ltInf : α → Bool
   logGamma : α → α
   incGammaP : α → α → α
   incGammaQ : α → α → α
